@@ -188,3 +188,78 @@ def small_scope(rng, counts, mut_max, trk_max, trk_sample=None, mut_sample=None,
             if n and len(h.ops) > n:
                 out.append(h.line())
     return out
+
+
+def popcount(x):
+    return bin(x).count("1")
+
+
+def syn_counts(rng, big):
+    """leaf counts for synthetic accumulators (nothing is materialised): bit patterns up to 2^63 - 1"""
+    cs = set()
+    for k in range(0, 63):
+        cs.add(2 ** k)
+        cs.add(2 ** (k + 1) - 1)
+    for k, j in ((40, 35), (62, 60), (62, 33), (50, 34), (34, 33), (62, 1), (61, 48), (55, 54)):
+        cs.add(2 ** k + 2 ** j - 1)
+        cs.add(2 ** k + 2 ** j)
+    cs |= {2 ** 63 - 1, 2 ** 63 - 2, 2 ** 62 + 2 ** 60, 2 ** 55, 0x2AAAAAAAAAAAAAAA, 0x5555555555555555,
+           2 ** 33 - 1, 2 ** 34 - 1, 2 ** 40 + 2 ** 35 - 1, 3, 7, 11, 12, 1}
+    for _ in range(60 if big else 12):
+        hi = rng.randrange(0, 2 ** 29)
+        t = rng.randrange(33, 50)
+        cs.add((hi << (t + 1)) | (2 ** t - 1))          # >= 33 trailing ones below a zero bit, random high part
+        cs.add(rng.randrange(1, 2 ** 63))
+        cs.add(rng.randrange(2 ** 49, 2 ** 63))
+    return sorted(c for c in cs if 0 < c < 2 ** 63)
+
+
+def syn_index_sets(rng, n):
+    """index sets (1..3 distinct leaves) for an n-leaf synthetic MMR"""
+    cand = {0, n - 1, n // 2, n - (n & -n), max(0, n - (n & -n) - 1)}
+    top = 1 << (n.bit_length() - 1)
+    cand |= {top - 1, top % n}
+    for t in (1, 2, 31, 32, 33, 40, 48, 55):
+        if 2 ** t <= n:
+            cand.add(n - 2 ** t)
+            cand.add((n - 2 ** t) ^ 1 if ((n - 2 ** t) ^ 1) < n else n - 2 ** t)
+    # XOR with the count just below a power of two
+    for m in range(1, 64):
+        i = n ^ (2 ** m - 1)
+        if 0 <= i < n:
+            cand.add(i)
+    cand = sorted(c for c in cand if 0 <= c < n)
+    sets = []
+    for c in cand:
+        sets.append([c])
+    for _ in range(4):
+        a = rng.choice(cand)
+        rel = [a ^ 1, a ^ 2, a ^ 3, a ^ (1 << 32), a ^ (1 << 33), a + 1, rng.choice(cand), rng.randrange(n)]
+        rel = [x for x in rel if 0 <= x < n and x != a]
+        rng.shuffle(rel)
+        s = [a]
+        for x in rel:
+            if x not in s and len(s) < rng.choice((2, 3)):
+                s.append(x)
+        sets.append(s)
+    return sets
+
+
+def syn_cases(rng, big, ops):
+    out = []
+    for n in syn_counts(rng, big):
+        sets = syn_index_sets(rng, n)
+        if not big and len(sets) > 6:
+            sets = rng.sample(sets, 6)
+        for s in sets:
+            for op in ops:
+                if op == "a" and n + 1 >= 2 ** 63:
+                    continue
+                out.append(("synthetic-" + {"v": "verify", "a": "append-update", "m": "mutate", "b": "batch-mutate",
+                                            "w": "verify_batch_update", "wx": "verify_batch_update"}[op],
+                            "syn %d %s %s" % (n, ",".join(map(str, s)), op)))
+    # appends on accumulators without tracked proofs (calculate_new_peaks_from_append at all-ones counts etc.)
+    for n in syn_counts(rng, big):
+        if n + 1 < 2 ** 63:
+            out.append(("synthetic-append-update", "syn %d - a" % n))
+    return out
